@@ -104,6 +104,46 @@ func (m *Machine) mapRaceOf(mp *mapV) *mapRaceState {
 	return s
 }
 
+// Slices sorted in place (sort.Slice / sort.SliceStable): the comparison callbacks read the elements,
+// a swap writes them. Two sorts of slices sharing one backing array by goroutines not ordered by
+// happens-before, at least one of which really swaps, is a data race that scrambles the slice
+// (duplicated / lost elements); reported as kind "slicerace", confirmed natively under -race.
+func (m *Machine) sliceAccess(first *value, write bool) {
+	if first == nil || len(m.gs) < 2 || m.cur == nil || m.cur.vc == nil {
+		return
+	}
+	s := m.sliceRaces[first]
+	if s == nil {
+		s = &mapRaceState{reads: map[int]*mapAccess{}}
+		m.sliceRaces[first] = s
+	}
+	site := m.where()
+	g := m.cur
+	report := func(prev *mapAccess) {
+		key := "slice|" + prev.site + "|" + site
+		if m.raceSeen[key] {
+			return
+		}
+		m.raceSeen[key] = true
+		detail := fmt.Sprintf("a slice is sorted in place by g%d at %s while g%d accesses the same backing array at %s: not ordered by happens-before (elements can be duplicated or lost)", prev.g, prev.site, g.id, site)
+		m.violationNow("slicerace", "no-concurrent-in-place-sort", detail, map[string]string{"first": prev.site, "second": site})
+	}
+	if m.unordered(s.lastW) {
+		report(s.lastW)
+	}
+	if write {
+		for _, r := range s.reads {
+			if m.unordered(r) {
+				report(r)
+			}
+		}
+		s.lastW = &mapAccess{g: g.id, clk: g.vc[g.id], site: site}
+		s.reads = map[int]*mapAccess{}
+	} else {
+		s.reads[g.id] = &mapAccess{g: g.id, clk: g.vc[g.id], site: site}
+	}
+}
+
 func (m *Machine) unordered(a *mapAccess) bool {
 	g := m.cur
 	return a != nil && a.g != g.id && a.clk > g.vc[a.g]
